@@ -46,8 +46,31 @@ func genHistory(t *rapid.T, signal string, k gen.Knobs, interleave bool) (*Strea
 	}
 	s := gen.NewStream(t, k, nb)
 	c := &StreamCase{}
+	// the upper end of the domain: a batch with exactly 65,535 (65,534, 40,000,
+	// 32,768) attribute-bearing parents, as first batch or after ordinary ones
+	boundaryAt := -1
+	var br *gen.Ramp
+	if !interleave && s.Rare("boundary", 5) {
+		boundaryAt = rapid.IntRange(0, nb-1).Draw(t, "boundaryat")
+		if boundaryAt > 2 {
+			boundaryAt = 2
+		}
+		br = gen.NewBoundaryRamp(t)
+		s.Stats["batch_at_the_65535_parent_boundary"]++
+	}
 	for b := 0; b < nb; b++ {
 		s.B = b
+		if b == boundaryAt {
+			switch signal {
+			case Traces:
+				c.Batches = append(c.Batches, TracesBatch(br.Traces()))
+			case Logs:
+				c.Batches = append(c.Batches, LogsBatch(br.Logs()))
+			default:
+				c.Batches = append(c.Batches, MetricsBatch(br.Metrics()))
+			}
+			continue
+		}
 		if interleave && rapid.IntRange(0, 5).Draw(t, "interleave") == 0 {
 			c.Batches = append(c.Batches, genBatch(s, rapid.SampledFrom(otherSignals[signal]).Draw(t, "othersig")))
 		}
